@@ -1,4 +1,5 @@
 import BarterModel.Lemmas.MockExchange
+import BarterModel.Lemmas.KernelsAgree.MockSM
 /-!
 # C08 — Simulated exchange keeps a consistent ledger of balances, orders and fills
 
@@ -332,5 +333,27 @@ example : (step (init c0) 5 (.openOrder sell0)).2.1 =
     .order (.rejected (.balanceInsufficient 0 2 (101/50))) := by decide +kernel
 example : Spec.accepted c0 (opens c0 [(5, .openOrder buy0), (6, .openOrder sell0), (7, .fetchSnapshot)]) =
     [⟨55, buy0⟩] := by decide +kernel
+
+/-- **Translator tie (map machine): the ledger model IS the current source.** `MockExchange::{open_order,
+validate_order_kind_supported, find_instrument_data, order_id_sequence_fetch_add, update_time_exchange, time_exchange}`,
+`build_open_order_err_response`, `AccountState::{update_time_exchange, trades, ack_trade}` (`balance_mut`, a
+`&mut`-returning accessor, is read in place at its calls), `AssetFees::quote_fees` and the structs / enums they work on
+are regenerated from `barter-execution/src/exchange/mock/{mod,account}.rs` (and `error.rs`, `balance.rs`, `trade.rs`,
+`order/*.rs`) by `tools/rust2lean_sm.py` on every run (`Generated/Machines3.lean`, group `mock`); the two `FnvHashMap`s are
+read through the translator's explicit map vocabulary (an association list with `get` / `insert` / `values_mut`, proved to
+be a finite map in `Lemmas/KernelsAgree/MapVocab.lean`); `MockExchange` is translated without its two channel fields, and
+the `async` request loop is not translated. The model keeps balances and instruments as LISTS by position where the code
+keys hash maps by name, so the correspondence is a simulation UP TO THE ORDER OF THE MAPS: `Sim g s` (scalars equal; for
+every key, `get` of the generated map is the model's list entry at that position; names are positions). For ALL related
+states and ALL requests, under `WF` (total = free, instrument assets have balances: what rules out the exchange's own
+`expect` / `assert_eq!` panics, `reach_wf`): the generated `open_order` yields related states and — read through `ofResp`:
+the `Order` response, the notifications, and the values `format!` puts into the error message — the model's `Result`
+(`openOrder`); the generated `update_time_exchange` / `ack_trade` / `trades` are `updateTime` / `ackTrade` / `tradesSince`; the
+composition the request loop performs for an open request is the model's `step`; every model state has a generated
+counterpart (`toMock`). No inequivalence was found. The statement is that of `KernelsAgree.MockSM.mock_sm_agree`
+(Lemmas/KernelsAgree/MockSM.lean). -/
+theorem map_machine_agrees_with_source :
+    type_of% BarterModel.KernelsAgree.MockSM.mock_sm_agree :=
+  BarterModel.KernelsAgree.MockSM.mock_sm_agree
 
 end BarterModel.Props.C08
